@@ -1,6 +1,7 @@
 import Lean.Data.Json
 import Mistral.Model.Ctx
-open Lean Mistral Mistral.Ctx
+import Mistral.Lemmas.HistDel
+open Lean Mistral Mistral.Ctx Mistral.Hist
 namespace Mistral.Drv.Ctx
 
 partial def valOfJson : Json → Val
@@ -42,8 +43,38 @@ def jsonOfCtx (c : Ctx) : Json :=
   Json.mkObj [("data", jsonOfVal (.obj c.data)),
               ("vers", Json.mkObj (c.vers.map fun (k, n) => (k, Json.num n)))]
 
+def taskOfJson (j : Json) : Except String Task := do
+  let ps ← j.getObjValAs? (Array Nat) "parents"
+  let pub ← dictOfJson (← j.getObjVal? "published")
+  pure { parents := ps.toList, pub := pub }
+
 def handle (fn : String) (a : Json) : Option (Except String Json) :=
   match fn with
+  | "ctx.run" => some do
+      -- a whole publish history (Model/Hist.lean): per task the inbound and outbound context and the
+      -- strict causal ancestors
+      let tsJ ← a.getObjValAs? (Array Json) "tasks"
+      let ts ← tsJ.toList.mapM taskOfJson
+      pure (Json.arr ((runRows ts).map fun r =>
+        Json.mkObj [("in", jsonOfCtx r.inb), ("out", jsonOfCtx r.out),
+                    ("anc", Json.arr (r.anc.map fun (n : Nat) => Json.num (JsonNumber.fromNat n)).toArray)]).toArray)
+  | "ctx.stable" => some do
+      -- the decidable hypothesis of the causal theorems: is every publication of the history shape-stable
+      -- at the leaf path var :: rest ?
+      let tsJ ← a.getObjValAs? (Array Json) "tasks"
+      let ts ← tsJ.toList.mapM taskOfJson
+      let k0 ← a.getObjValAs? String "var"
+      let rest ← a.getObjValAs? (Array String) "rest"
+      pure (Json.bool (decide (∀ t ∈ ts, StablePub k0 rest.toList t.pub)))
+  | "ctx.stable2" => some do
+      -- the decidable hypotheses of the weaker causal theorems (Props/C05Drop): spine-stable republication
+      -- (the leaf may be dropped) and DropsLow (a dropping task has seen at most one generation of the leaf)
+      let tsJ ← a.getObjValAs? (Array Json) "tasks"
+      let ts ← tsJ.toList.mapM taskOfJson
+      let k0 ← a.getObjValAs? String "var"
+      let rest ← a.getObjValAs? (Array String) "rest"
+      pure (Json.mkObj [("spine", Json.bool (decide (∀ t ∈ ts, StablePub2 k0 rest.toList t.pub))),
+                        ("dropsLow", Json.bool (decide (DropsLow k0 rest.toList ts)))])
   | "ctx.outbound" => some do
       let c ← ctxOfJson (← a.getObjVal? "in")
       let p ← dictOfJson (← a.getObjVal? "published")
